@@ -71,6 +71,7 @@ type WorkerCtx struct {
 	Scratch string // private directory of this worker, removed by the parent
 	Self    string // path of the running binary (for grandchildren)
 	Replay  bool
+	Race    bool // running from the -race binary: the harness must not read unsynchronised kvass state itself
 }
 
 // Thorough is a shorthand.
@@ -103,6 +104,9 @@ type Prop struct {
 	Race bool
 	// RaceAttribute decides which de-duplicated reports count as violations of this property.
 	RaceAttribute func(rep RaceReport) (sig string, counts bool)
+	// RacePass lists case indexes that are executed once more from the -race binary (WorkerCtx.Race = true)
+	// after the normal run; their race reports are collected and attributed like those of a Race prop.
+	RacePass func(tier string) []int
 	// Finalize may add evidence keys / inconclusive reasons once everything is aggregated.
 	Finalize func(a *Agg)
 	// Env adds environment variables for workers.
@@ -137,7 +141,7 @@ type rec struct {
 }
 
 // WorkerMain runs cases from, from+step, ... < total and appends records to out.
-func WorkerMain(p *Prop, w *WorkerCtx, from, step, total int, out string) int {
+func WorkerMain(p *Prop, w *WorkerCtx, from, step, total int, out string, list []int) int {
 	f, err := os.OpenFile(out, os.O_CREATE|os.O_WRONLY|os.O_APPEND, 0644)
 	if err != nil {
 		fmt.Fprintln(os.Stderr, "worker: open out:", err)
@@ -174,7 +178,15 @@ func WorkerMain(p *Prop, w *WorkerCtx, from, step, total int, out string) int {
 			}
 		}
 	}()
-	for idx := from; idx < total; idx += step {
+	var todo []int
+	if len(list) > 0 {
+		todo = list
+	} else {
+		for idx := from; idx < total; idx += step {
+			todo = append(todo, idx)
+		}
+	}
+	for _, idx := range todo {
 		i := idx
 		mu.Lock()
 		emit(rec{B: &i})
@@ -338,7 +350,51 @@ func ParentMain(p *Prop, tier string, seed uint64, self, raceSelf string) int {
 		}(k)
 	}
 	wg.Wait()
-	if p.Race {
+	if p.RacePass != nil {
+		idxs := p.RacePass(tier)
+		nrw := nw
+		if nrw > len(idxs) {
+			nrw = len(idxs)
+		}
+		var wg2 sync.WaitGroup
+		for k := 0; k < nrw; k++ {
+			var mine []string
+			for i := k; i < len(idxs); i += nrw {
+				mine = append(mine, strconv.Itoa(idxs[i]))
+			}
+			wg2.Add(1)
+			go func(k int, mine []string) {
+				defer wg2.Done()
+				out := filepath.Join(scratch, fmt.Sprintf("r%d.jsonl", k))
+				wdir := filepath.Join(scratch, fmt.Sprintf("r%d.d", k))
+				_ = os.MkdirAll(wdir, 0755)
+				cmd := exec.Command(raceSelf, "worker", "--prop", p.ID, "--tier", tier, "--seed", strconv.FormatUint(seed, 10),
+					"--list", strings.Join(mine, ","), "--race", "--out", out, "--scratch", wdir)
+				var stderr tailBuffer
+				cmd.Stderr, cmd.Stdout = &stderr, &stderr
+				cmd.Env = append(append(os.Environ(), p.Env...), "GORACE=halt_on_error=0 exitcode=0 log_path="+filepath.Join(scratch, fmt.Sprintf("race-p%d", k)))
+				runErr := cmd.Run()
+				last, open, hang := readRecords(out, agg, &mu)
+				_ = os.RemoveAll(wdir)
+				if runErr != nil || open {
+					mu.Lock()
+					kind := "died"
+					if hang {
+						kind = "hang"
+					}
+					if open {
+						agg.Crashes = append(agg.Crashes, crash{Idx: last, Kind: kind + " (race pass)", Stderr: stderr.String()})
+					} else {
+						agg.Inconcl = append(agg.Inconcl, fmt.Sprintf("race-pass worker %d failed outside a case: %v: %s", k, runErr, firstLines(stderr.String(), 5)))
+					}
+					mu.Unlock()
+				}
+			}(k, mine)
+		}
+		wg2.Wait()
+		agg.Stats["race_pass_cases"] += int64(len(idxs))
+	}
+	if p.Race || p.RacePass != nil {
 		agg.Race = CollectRaceReports(scratch)
 	}
 	return finish(agg, t0)
@@ -555,7 +611,10 @@ func finish(a *Agg, t0 time.Time) int {
 	if p.Exhaustive != nil && p.Exhaustive(a.Tier) {
 		cov["exhaustive"] = true
 	}
-	if p.Race {
+	if p.Race || p.RacePass != nil {
+		if unattributed == nil {
+			unattributed = []string{}
+		}
 		cov["race_reports_attributed"] = raceAttributed
 		cov["race_reports_unattributed"] = raceOther
 		cov["unattributed_race_reports"] = unattributed
